@@ -385,7 +385,10 @@ func c17(run *ev.Run, tier string) {
 		case "symlink":
 			e.Src = "/nonexistent-verif/t"
 		case "tree":
-			e.Src = dir
+			td := filepath.Join(dir, "treesrc")
+			_ = os.MkdirAll(filepath.Join(td, "sub"), 0o755)
+			_ = os.WriteFile(filepath.Join(td, "sub", "f.txt"), []byte("f\n"), 0o644)
+			e.Src = td
 			e.Dst = "/opt/schemapkg/tree"
 		default:
 			e.Src = payload
